@@ -407,9 +407,9 @@ def line_amp_term(case, ob, ln, cfg):
     for v in sorted({a['variety'] for a in amps}):
         if v in eq['Edfa']:
             p = eq['Edfa'][v]
-            lib.append(f'({strlit(v)}, lb {qlit(p.p_max)} {qlit(p.gain_flatmax)} {"true" if p.out_voa_auto else "false"})')
-    sel = [f'({strlit(a["uid"])}, {strlit(a["variety"])})' for a in amps]
-    rg = [f'({strlit(u)}, {qlit(round(g, 2))})' for u, g in ob['rgain'].items()
+            lib.append(f'({strlit(v)}%string, lb {qlit(p.p_max)} {qlit(p.gain_flatmax)} {"true" if p.out_voa_auto else "false"})')
+    sel = [f'({strlit(a["uid"])}%string, {strlit(a["variety"])}%string)' for a in amps]
+    rg = [f'({strlit(u)}%string, {qlit(round(g, 2))})' for u, g in ob['rgain'].items()
           if any(e['uid'] == u for e in ln['els'])]
     ops = []
     for e in ln['els']:
@@ -588,9 +588,10 @@ def run(ctx):
     if ctx.replay:
         cases = [json.load(open(ctx.replay))['case']]
     else:
-        cases += [gen_case(rng) for _ in range(ctx.scale(70, 1500))]
-        for kind, n in (('eol', ctx.scale(4, 40)), ('lumped', ctx.scale(4, 40)), ('att_in', ctx.scale(4, 40)),
-                        ('voa_margin', ctx.scale(6, 60)), ('raman', ctx.scale(4, 40))):
+        nvalid = int(os.environ.get('VERIF_C17_N', ctx.scale(40, 1500)))
+        cases += [gen_case(rng) for _ in range(nvalid)]
+        for kind, n in (('eol', ctx.scale(3, 40)), ('lumped', ctx.scale(3, 40)), ('att_in', ctx.scale(3, 40)),
+                        ('voa_margin', ctx.scale(4, 60)), ('raman', ctx.scale(3, 40))):
             cases += [gen_case(rng, kind) for _ in range(n)]
     terms, meta = [], []
     for case in cases:
@@ -604,7 +605,7 @@ def run(ctx):
         v_before = simparams_vars()
         names = sorted(case['roadms'])
         pair = None
-        if rng.random() < 0.25 and len(names) >= 2:
+        if rng.random() < 0.15 and len(names) >= 2:
             a, b = rng.sample(names, 2)
             pair = ('trx ' + a.split(' ', 1)[1], 'trx ' + b.split(' ', 1)[1])
         res = roundtrip(case, want_obs=True, propagate_pair=pair)
@@ -625,9 +626,10 @@ def run(ctx):
                                   e['k'] == 'R' for ln in case['lines'] for e in ln['els'])})
             continue
         # ---- design twice
-        twice = roundtrip(case, rounds=0)
-        if 'exc' in twice or json.dumps(twice['json'][0], sort_keys=True) != json.dumps(res['json'][0], sort_keys=True):
-            if not pair:
+        if not pair and rng.random() < 0.4:
+            ctx.count('designed_twice')
+            twice = roundtrip(case, rounds=0)
+            if 'exc' in twice or json.dumps(twice['json'][0], sort_keys=True) != json.dumps(res['json'][0], sort_keys=True):
                 ctx.violation('design_twice_differs', 'two designs of the same input give different exports', sc)
         # ---- redesign drift
         d = drift_of(res)
